@@ -573,6 +573,16 @@ def fam_meta(seed, n, dirs=("fwd", "rev"), gated=True):
                 c2 = dict(cfg, tunnelMD={"authorization": ["Bearer tunnel-secret"]})
                 out.append(scenario("meta-nomd-%s-%s-%s" % (cname, shape, "+".join(opts)), c2, [rs],
                                     {"kind": "eager", "seed": seed, "max": 200}, meta={"family": "meta", "done": [1]}))
+    # two per-RPC credentials on one call whose keys collide with each other and with the outgoing metadata
+    for cname, cfg in cfgs(dirs, ("fc",)):
+        for shape in ("unary_invoke", "bidi"):
+            for mdname in ("h1", "multi", "none"):
+                rs = rpc_script(1, shape, [5], [4] if shape == "bidi" else [], opts=["creds", "creds2"], hdrs=["h1"], trls=["t1"])
+                new = rs["c"]["m"][0]
+                if MD_POOL[mdname] is not None:
+                    new["md"] = MD_POOL[mdname]
+                out.append(scenario("meta-creds-collide-%s-%s-%s" % (cname, shape, mdname), cfg, [rs],
+                                    {"kind": "eager", "seed": seed, "max": 200}, meta={"family": "meta", "done": [1]}))
     # binary metadata values that are not valid UTF-8 (legal under "-bin" keys)
     for cname, cfg in cfgs(dirs, ("fc",)):
         for where in ("md", "hdrs", "trls"):
@@ -1004,6 +1014,26 @@ def fam_hostile_cli(seed, n=0, dirs=("fwd", "rev")):
                 out.append({"name": "hostile-cli-%s-%s-w%d-p%d" % (d, dname, swin, pos),
                             "cfg": {"dir": d, "rawSrv": "neg"}, "steps": steps,
                             "meta": {"family": "hostile-cli", "deviation": dname}})
+      # a peer that announces an enormous response and sends only its first bytes: the caller's end must not reserve
+      # what was merely announced (a reader is assembling the message; a bystander goes on)
+      for announced in (1 << 28, (1 << 31) - 1):
+          for early_reader in (False, True):
+              steps = [{"do": "open"}, raw("settings", -1, win=W, revs=[0, 1]), dl("s2c"),
+                       cop(1, "new", shape="bidi", opts=["hdr", "trl"]), cop(1, "send", n=10), cop(1, "half"),
+                       cop(2, "invoke", shape="unary", n=5), {"do": "drain"}, {"do": "heap"}]
+              if early_reader:
+                  steps.append(cop(1, "recv", act="a"))
+              for f in [raw("hdr", 1), raw("msg", 1, size=announced, len=64)]:
+                  steps += [copy.deepcopy(f), dl("s2c")]
+              if not early_reader:
+                  steps.append(cop(1, "recv", act="a"))
+              steps += [{"do": "drain"}, {"do": "heap"}]
+              for f in [raw("hdr", 2)] + data_frames(2, 2, "s", 0, 7) + [raw("close", 2, code=0)]:
+                  steps += [copy.deepcopy(f), dl("s2c")]
+              steps += [{"do": "drain"}, {"do": "heap"}]
+              out.append({"name": "hostile-cli-%s-announce-huge-%d-%s" % (d, announced >> 20, "reader-first" if early_reader else "frame-first"),
+                          "cfg": {"dir": d, "rawSrv": "neg"}, "steps": steps,
+                          "meta": {"family": "hostile-cli", "deviation": "announce-huge"}})
     return out
 
 
